@@ -75,6 +75,22 @@ def kani_scan(modules):
     return out
 
 
+def overlay_tags(kernel, _seen=None):
+    """obligation tags of an overlay (and the overlays it includes), read from the overlay text itself so that
+    they are known even when extraction fails"""
+    import extract
+    _seen = _seen or set()
+    p = os.path.join(verus_run.VDIR, kernel + '.v.rs')
+    if p in _seen or not os.path.exists(p):
+        return []
+    _seen.add(p)
+    text = open(p, encoding='utf-8').read()
+    out = [dict(id=m.group(1), props=[x for x in m.group(2).strip().split(',') if x]) for m in extract.TAG_RE.finditer(text)]
+    for m in re.finditer(r'(?m)^//@ include (\S+)', text):
+        out += overlay_tags(m.group(1)[:-len('.v.rs')], _seen)
+    return out
+
+
 def load_known():
     p = os.path.join(VERIF, 'known_findings.json')
     if not os.path.exists(p):
@@ -231,7 +247,17 @@ def run(prop, tier, seed):
         kani_violated = bool(violations) or bool(known_hits)
         for vr in verus_results:
             if vr['status'] == 'undecided':
-                undecided.append('verus kernel %s: %s' % (vr['kernel'], vr['reason']))
+                # the proof script could not be checked against the current text (lost anchor, renamed local,
+                # construct outside the subset).  If every clause this kernel contributes to THIS property is
+                # also covered by a complete Kani proof that succeeded, the property is still decided.
+                tags = overlay_tags(vr['kernel'])
+                rel = [t for t in tags if not t['props'] or prop in t['props']]
+                uncovered = [t['id'] for t in rel if not any(fnmatch.fnmatch(t['id'], g) for g in proved_cov)]
+                if rel and not uncovered and not vr.get('reason', '').startswith('vacuity'):
+                    stale.append(dict(obligation='kernel:' + vr['kernel'], kernel=vr['kernel'], message=vr['reason'][:300],
+                                      note='Verus kernel undecided on this text; all %d of its clauses for %s are covered by complete Kani proofs that succeeded' % (len(rel), prop)))
+                    continue
+                undecided.append('verus kernel %s: %s%s' % (vr['kernel'], vr['reason'], (' [clauses without a complete Kani proof: %s]' % ', '.join(uncovered[:6])) if uncovered else ''))
                 continue
             if vr['status'] != 'failed':
                 continue
